@@ -95,8 +95,9 @@ def run_c04_trees(case):
         impl.take_log()
         kb = impl.PropKB(desc)
         kb.add_roots()
-        lines += kb.header_lines()
-        out += ["ok"] * (len(kb.order) + 1)
+        hdr = kb.header_lines()
+        lines += hdr
+        out += ["ok"] * len(hdr)
         ids = ",".join(map(str, kb.order))
         for val in itertools.product("FUT", repeat=n_atoms):
             kb.model.reset_bounds()
@@ -152,8 +153,9 @@ def run_c04_duals(case):
     for name, d in (("direct", d1), ("dual", d2)):
         kb = impl.PropKB(d)
         kb.add_roots()
-        lines += kb.header_lines()
-        out += ["ok"] * (len(kb.order) + 1)
+        hdr = kb.header_lines()
+        lines += hdr
+        out += ["ok"] * len(hdr)
         for i, key in ((0, "A"), (1, "B"), (2, "op")):
             lo, hi = case[key]
             kb.model.add_data({kb.obj[i]: (float(lo), float(hi))})
